@@ -38,6 +38,7 @@ type c11Input struct {
 	Cfg   string   `json:"cfg"`
 	Rules []string `json:"rules"`
 	Two   bool     `json:"two"`
+	Grp   bool     `json:"grp"` // the group carries labels (team, tier) that rules inherit or override
 	// replay only: arrival orders, each a list of [job, k] (job = index among the non-empty jobs, 1-based)
 	Orders [][][2]int `json:"orders,omitempty"`
 }
@@ -78,19 +79,33 @@ func c11Config(v string) string {
     severity = "warning"
   }
 }
-`, sev("warning", "bug"), sev("warning", "info"), sev("warning", "bug"))
+rule {
+  match {
+    kind = "alerting"
+  }
+  label "team" {
+    required = true
+    value    = "infra"
+    severity = "%s"
+  }
+}
+`, sev("warning", "bug"), sev("warning", "info"), sev("warning", "bug"), "warning")
+	// same: both `team` blocks warn -> two jobs report the identical problem (merged by Summary.Report);
+	// mixed: the first block reports a bug, the second a warning -> the same problem at two severities
 }
 
 func c11Rule(kind string, i int) []string {
-	full := []string{"    labels:", "      team: a", "      tier: b", "    annotations:", "      summary: s", "      runbook: r"}
+	full := []string{"    labels:", "      team: infra", "      tier: b", "    annotations:", "      summary: s", "      runbook: r"}
 	n := strconv.Itoa(i)
 	switch kind {
 	case "clean":
 		return append([]string{"  - alert: A" + n, `    expr: up{job="x"} == 0`}, full...)
 	case "bare":
 		return []string{"  - alert: A" + n, `    expr: up{job="x"} == 0`}
+	case "ovr": // overrides a label the group may set
+		return []string{"  - alert: A" + n, `    expr: up{job="x"} == 0`, "    labels:", "      team: db" + n, "    annotations:", "      summary: s", "      runbook: r"}
 	case "tmpl":
-		return []string{"  - alert: A" + n, `    expr: sum(up{job="x"}) by(job) > 0`, "    labels:", "      team: a", "      tier: b",
+		return []string{"  - alert: A" + n, `    expr: sum(up{job="x"}) by(job) > 0`, "    labels:", "      team: infra", "      tier: b",
 			"    annotations:", "      summary: '{{ $labels.instance }}'", "      runbook: '{{ $labels.instance }}'"}
 	case "regexp":
 		return append([]string{"  - alert: A" + n, `    expr: up{job=~"^foo$", instance=~"bar"} == 0`}, full...)
@@ -99,13 +114,17 @@ func c11Rule(kind string, i int) []string {
 	case "agg":
 		return []string{"  - record: r" + n, `    expr: sum(rate(foo_total[5m])) without(job, cluster)`}
 	case "broken":
-		return []string{"  - alert: A" + n, "    labels:", "      team: a"}
+		return []string{"  - alert: A" + n, "    labels:", "      team: infra"}
 	}
 	return nil
 }
 
 func c11Files(in c11Input) (map[string][]byte, []string) {
-	l := []string{"groups:", "- name: g", "  rules:"}
+	l := []string{"groups:", "- name: g"}
+	if in.Grp {
+		l = append(l, "  labels:", "    team: infra", "    tier: b")
+	}
+	l = append(l, "  rules:")
 	for i, k := range in.Rules {
 		l = append(l, c11Rule(k, i+1)...)
 	}
@@ -119,23 +138,68 @@ func c11Files(in c11Input) (map[string][]byte, []string) {
 	return files, order
 }
 
-// non-empty jobs of the real pipeline, each with its reports in emission order
-func c11Jobs(dir string, in c11Input) ([][]reporter.Report, []discoveryEntryRule, error) {
+// the jobs of the real pipeline executed one after the other in the given order (nil = queue order);
+// returns the reports of every job indexed by its position in the queue. Files are parsed afresh.
+func c11Execute(dir string, in c11Input, perm func(n int) []int) ([][]reporter.Report, error) {
 	files, order := c11Files(in)
-	res := pipe.Lint(dir, files, order, pipe.Opts{Strict: true, Offline: true, Command: "lint", Config: c11Config(in.Cfg)})
-	if res.Panic != "" || res.FindErr != "" || res.CfgErr != "" {
-		return nil, nil, fmt.Errorf("pipeline: panic=%q find=%q cfg=%q", res.Panic, res.FindErr, res.CfgErr)
+	for n, b := range files {
+		if err := os.WriteFile(filepath.Join(dir, n), b, 0o644); err != nil {
+			return nil, err
+		}
+	}
+	p, err := pipe.Prepare(dir, order, pipe.Opts{Strict: true, Offline: true, Command: "lint", Config: c11Config(in.Cfg)})
+	if err != nil {
+		return nil, err
+	}
+	defer p.Close()
+	out := make([][]reporter.Report, len(p.Jobs))
+	idx := make([]int, len(p.Jobs))
+	for i := range idx {
+		idx[i] = i
+	}
+	if perm != nil {
+		idx = perm(len(p.Jobs))
+	}
+	var perr error
+	func() {
+		defer func() {
+			if r := recover(); r != nil {
+				perr = fmt.Errorf("panic in a check: %v", r)
+			}
+		}()
+		for _, i := range idx {
+			out[i] = p.Run(p.Jobs[i])
+		}
+	}()
+	return out, perr
+}
+
+// non-empty jobs in queue order, each with its reports in emission order
+func c11Jobs(dir string, in c11Input) ([][]reporter.Report, error) {
+	all, err := c11Execute(dir, in, nil)
+	if err != nil {
+		return nil, err
 	}
 	var jobs [][]reporter.Report
-	for _, j := range res.RawJobs {
+	for _, j := range all {
 		if len(j) > 0 {
 			jobs = append(jobs, j)
 		}
 	}
-	return jobs, nil, nil
+	return jobs, nil
 }
 
-type discoveryEntryRule struct{}
+// what every job reported, as text (scratch directory removed)
+func c11JobsText(all [][]reporter.Report, dir string) string {
+	var b strings.Builder
+	for i, j := range all {
+		for _, r := range j {
+			fmt.Fprintf(&b, "%d|%s|%s|%d|%v|%s|%s|%s|%v\n", i, strings.TrimPrefix(r.Path.Name, dir), r.Rule.Name(), r.Problem.Severity,
+				r.Problem.Lines, r.Problem.Reporter, r.Problem.Summary, r.Problem.Details, r.Problem.Diagnostics)
+		}
+	}
+	return b.String()
+}
 
 func c11CopyReport(r reporter.Report) reporter.Report {
 	c := r
@@ -286,7 +350,7 @@ func c11Replay(id int, in c11Input, emit func(any)) error {
 		return err
 	}
 	defer os.RemoveAll(dir)
-	jobs, _, err := c11Jobs(dir, in)
+	jobs, err := c11Jobs(dir, in)
 	if err != nil {
 		return err
 	}
@@ -298,7 +362,7 @@ func c11Replay(id int, in c11Input, emit func(any)) error {
 	}
 	rk.done()
 	pj := &c11Projector{rk: rk, dir: dir, cids: map[string]int{}}
-	var reps []c11Rep
+	reps := []c11Rep{}
 	uidOf := map[[2]int]int{}
 	shape := []int{}
 	for ji, j := range jobs {
@@ -310,8 +374,44 @@ func c11Replay(id int, in c11Input, emit func(any)) error {
 		}
 	}
 	rules := append([]string{}, in.Rules...)
-	emit(map[string]any{"ev": "File", "id": id, "cfg": in.Cfg, "rules": rules, "two": in.Two, "shape": shape, "n": len(reps),
+	emit(map[string]any{"ev": "File", "id": id, "cfg": in.Cfg, "rules": rules, "two": in.Two, "grp": in.Grp, "shape": shape, "n": len(reps),
 		"reports": reps, "reps": rk.names("rep"), "alldiags": c11ProbeAllDiags()})
+	// the checks themselves executed in other orders: every job must report what it reports in queue order
+	rev := func(n int) []int {
+		p := make([]int, n)
+		for i := range p {
+			p[i] = n - 1 - i
+		}
+		return p
+	}
+	shuf := func(seed int) func(n int) []int {
+		return func(n int) []int {
+			p := make([]int, n)
+			for i := range p {
+				p[i] = i
+			}
+			x := uint64(seed)*2654435761 + 12345
+			for i := n - 1; i > 0; i-- {
+				x = x*6364136223846793005 + 1442695040888963407
+				j := int((x >> 33) % uint64(i+1))
+				p[i], p[j] = p[j], p[i]
+			}
+			return p
+		}
+	}
+	for _, ex := range []struct {
+		kind string
+		perm func(int) []int
+	}{{"queue", nil}, {"reverse", rev}, {"shuffle1", shuf(id)}, {"shuffle2", shuf(id + 7919)}} {
+		all, err := c11Execute(dir, in, ex.perm)
+		txt := ""
+		if err != nil {
+			txt = "ERROR " + err.Error()
+		} else {
+			txt = c11JobsText(all, dir)
+		}
+		emit(map[string]any{"ev": "Exec", "id": id, "kind": ex.kind, "base": ex.kind == "queue", "h": c11Hash(txt)})
+	}
 	canon := [][2]int{}
 	for ji, j := range jobs {
 		for k := range j {
@@ -319,6 +419,10 @@ func c11Replay(id int, in c11Input, emit func(any)) error {
 		}
 	}
 	orders := append([][][2]int{canon}, in.Orders...)
+	bindN := 6
+	if os.Getenv("VERIF_TIER") == "thorough" {
+		bindN = 30
+	}
 	for oi, ord := range orders {
 		if len(ord) != len(reps) {
 			return fmt.Errorf("input %d order %d has %d elements for %d reports", id, oi, len(ord), len(reps))
@@ -365,7 +469,8 @@ func c11Replay(id int, in c11Input, emit func(any)) error {
 		for _, o := range outs {
 			hs = append(hs, c11Hash(o))
 		}
-		rec := map[string]any{"ev": "Order", "id": id, "oid": oi, "canon": oi == 0, "order": arr, "final": final, "dup": dup, "ndups": ndups, "h": hs, "text": ""}
+		rec := map[string]any{"ev": "Order", "id": id, "oid": oi, "canon": oi == 0, "order": arr, "final": final, "dup": dup, "ndups": ndups, "h": hs, "text": "",
+			"bind": oi <= bindN} // JUDGE re-computes the fold of the spec for the first orders of every input
 		if oi == 0 {
 			rec["text"] = outs[0]
 		}
@@ -459,7 +564,7 @@ func init() {
 			return err
 		}
 		defer os.RemoveAll(dir)
-		jobs, _, err := c11Jobs(dir, in)
+		jobs, err := c11Jobs(dir, in)
 		if err != nil {
 			return err
 		}
@@ -516,7 +621,7 @@ func init() {
 			_ = os.WriteFile(filepath.Join(dir, ".pint.hcl"), []byte(c11Config(c.Cfg)), 0o644)
 			id := idx + 1
 			rules := append([]string{}, c.Rules...)
-			recs := []any{map[string]any{"ev": "BinFile", "id": id, "cfg": c.Cfg, "rules": rules, "two": c.Two}}
+			recs := []any{map[string]any{"ev": "BinFile", "id": id, "cfg": c.Cfg, "rules": rules, "two": c.Two, "grp": c.Grp}}
 			combos := append([][3]int{{1, 1, 0}}, c.Combos...)
 			for k, cb := range combos {
 				seed := ""
